@@ -130,6 +130,32 @@ func C10(r *core.Run) {
 				visit(lines, v, x)
 			}
 		})
+		// the formatted file is an include file: what its includers generate is the same before and after
+		vary := filepath.Join(wd, "regex-assembly/include/vary.ra")
+		includers := []string{"##!> include vary\ntail\n", "##!> cmdline unix\n##!> include vary\n##!<\n", "head\n##!> include-except vary ex\n"}
+		enumFmtFiles(alphabet, 1, 2, shard, n, func(lines []string, v fmtVariant, x string) {
+			r.Inflight("include file: " + x)
+			o.Files++
+			os.WriteFile(vary, []byte(x), 0o644)
+			var before []string
+			for _, inc := range includers {
+				before = append(before, root.Generate(inc).String())
+			}
+			res := root.Format(vary, false)
+			o.Ops += 1 + 2*len(includers)
+			if res.Kind != inproc.OK {
+				o.FormatFailed++
+				return
+			}
+			b, _ := os.ReadFile(vary)
+			for i, inc := range includers {
+				after := root.Generate(inc).String()
+				if okB, okA := strings.HasPrefix(before[i], "ok:"), strings.HasPrefix(after, "ok:"); okB != okA || (okB && before[i] != after) {
+					o.Fails = append(o.Fails, c09Fail{"generate-outcomes-preserved", fmt.Sprintf("an includer (%q) of the file generates %q before and %q after the file is formatted", inc, before[i], after), lines, v, x, []string{string(b)}})
+				}
+			}
+		})
+		os.Remove(vary)
 		emit(o)
 	})
 	// conformance: files of one line through the CLI (format + generate before/after)
